@@ -39,7 +39,6 @@ LEVEL_TEXT = ("Sampled schedules: one intercepted hook per case, all six protoco
               "events while held, four actions; destination byte streams are searched for unique content tags.")
 LEVEL_NOTE = "trusts lib/driver.py; only one hook is intercepted per case"
 QUICK_N, THOROUGH_N = 30_000, 1_000_000
-BUDGET_S = (200, 3600)
 
 C, S = 0, 1
 KILLED = "Connection killed."
